@@ -109,8 +109,9 @@ def call_forms(s, no, ch):
     """the ways a caller can name the setting: by number and setting, by the name the table reports (R...r selects the rhombohedral setting itself),
     and by the plain name together with the setting"""
     plain = s.name[:-1] if (s.cell_choice == 'rhombohedral' and s.name.lower().endswith('r')) else s.name
+    padded = ' ' + ' '.join(s.name).swapcase() + '\t'        # the same symbol with blanks between and around its characters and the other letter case
     return [('sgno=%d, cell_choice=%r' % (no, ch), dict(sgno=no, cell_choice=ch)), ('sgname=%r' % s.name, dict(sgname=s.name)),
-            ('sgname=%r, cell_choice=%r' % (plain, ch), dict(sgname=plain, cell_choice=ch))]
+            ('sgname=%r, cell_choice=%r' % (plain, ch), dict(sgname=plain, cell_choice=ch)), ('sgname=%r' % padded, dict(sgname=padded))]
 
 
 def plan(k, s, no, ch, case, tools, laue):
@@ -120,8 +121,8 @@ def plan(k, s, no, ch, case, tools, laue):
     if s.cell_choice == 'rhombohedral' and k % 3 == 0:
         return [(m, f) for m in (tools, laue) for f in forms]
     if case.get('kind'):
-        return [(tools, forms[k % 3]), (laue, forms[(k + 1) % 3])]
-    return [((tools, laue)[k % 2], forms[(k // 2) % 3])]
+        return [(tools, forms[k % 4]), (laue, forms[(k + 1) % 4])]
+    return [((tools, laue)[k % 2], forms[(k // 2) % 4])]
 
 
 def make_case(rng, s):
